@@ -379,6 +379,20 @@ func c03NoDecodingInBackends(r *Report) {
 		}
 	}
 	r.Own(OwnSpec{ID: "C03.backends-do-not-decode-names", Op: "percent-decode inside the key store / backends (a validated name could turn into a path)", Sites: sites, Owners: map[string]string{}, Min: 0})
+	// hand-made decoding/rewriting: the storage backends use key names as they are (escaping and path joining only)
+	var rewriters []Callee
+	for _, n := range []string{"Replace", "ReplaceAll", "NewReplacer", "Map", "Trim", "TrimLeft", "TrimRight", "TrimPrefix", "TrimSuffix", "TrimSpace", "TrimFunc", "ToLower", "ToUpper", "Split", "SplitN", "SplitAfter", "Fields", "Cut", "CutPrefix", "CutSuffix"} {
+		rewriters = append(rewriters, Fn("std:strings", "", n))
+	}
+	rewriters = append(rewriters, Fn("std:strings", "Replacer", "Replace"), Fn("std:encoding/hex", "", "DecodeString"), Fn("std:encoding/base64", "Encoding", "DecodeString"),
+		Fn("std:regexp", "Regexp", "ReplaceAllString"), Fn("std:regexp", "Regexp", "ReplaceAllStringFunc"), Fn("std:net/url", "", "Parse"), Fn("std:path", "", "Clean"))
+	var rw []Site
+	for _, s := range p.CallSites(AnyOf(rewriters...), true) {
+		if strings.HasPrefix(funcPkg(s.Fn), ModPath+"/crypto/storage/") && p.FileClass(p.FuncPos(s.Fn)) == "prod" {
+			rw = append(rw, s)
+		}
+	}
+	r.Own(OwnSpec{ID: "C03.backends-do-not-rewrite-names", Op: "rewrite/split/trim/decode a string inside a key storage backend (key names are used verbatim: escaped or joined, never rewritten)", Sites: rw, Owners: map[string]string{}, Min: 0})
 	// positive control: the matcher finds the decoder where the module legitimately uses it
 	rule := "SELF-TEST: the percent-decoding matcher finds url.PathUnescape elsewhere in the module"
 	r.Sites += len(all)
